@@ -504,12 +504,14 @@ Definition spec_run (cls : N -> N) (s : str) (e : env) : sres :=
 Inductive answer :=
 | AnsValue (z : Z) (final : env)
 | AnsError
-| AnsPanic.
+| AnsPanic
+| AnsOther.        (* neither a number nor an error (only through the whole shell) *)
 
 (* 0 = accepted; otherwise the number of the violated clause *)
 Definition oracle (cls : N -> N) (s : str) (e : env) (a : answer) : N :=
   match a with
   | AnsPanic => 6%N
+  | AnsOther => 7%N
   | AnsError => match spec_run cls s e with SErr => 0%N | SVal _ _ => 5%N end
   | AnsValue z e' =>
       match spec_run cls s e with
